@@ -201,4 +201,119 @@ theorem unit_no_lost_wakeup (k : Nat) (hk : 0 < k) (evs : List UEv) (hc : UAllCa
     simpa using this) hc 1 (by intro i hi; exact h i hi)
   exact this
 
+/-! ### A joining handler one of whose inputs is produced by its own success (`push_phase_shift`)
+
+`push_phase_shift` joins the next scheduled tick, one blocking arrival per blocking input, and the previous step's end time. The
+first two kinds are appended by other handlers, each append followed by a call; the end time of step `j` is appended by the success
+for step `j - 1` itself (the first one at start-up) **without** a call. No call is lost all the same: the end time the next unit needs
+is always there, so a unit is complete as soon as every external source has delivered, and the calls that follow those deliveries
+suffice. -/
+
+/-- `arrived i` / `served i`: items delivered by external source `i < k` / calls of the handler that followed such a delivery and
+have run; `done`: units completed so far (the previous-end item of unit `done` is available by construction) -/
+structure C where
+  arrived : Nat → Nat
+  served : Nat → Nat
+  done : Nat
+
+inductive CEv | deliver (i : Nat) | call (i : Nat)
+
+def cstep (k : Nat) (c : C) : CEv → C
+  | .deliver i => { c with arrived := fun j => if j = i then c.arrived j + 1 else c.arrived j }
+  | .call i =>
+    if c.served i < c.arrived i then
+      let served' := fun j => if j = i then c.served j + 1 else c.served j
+      if (List.range k).all (fun j => decide (c.done < c.arrived j)) then { c with served := served', done := c.done + 1 }
+      else { c with served := served' }
+    else c
+
+def crun (k : Nat) (evs : List CEv) : C := evs.foldl (cstep k) { arrived := fun _ => 0, served := fun _ => 0, done := 0 }
+
+/-- the invariant: the calls served for every source never run ahead of the completed units, and never ahead of the deliveries -/
+def CInv (k : Nat) (c : C) : Prop := (∀ n, (∀ i, i < k → n ≤ c.served i) → n ≤ c.done) ∧ (∀ i, c.served i ≤ c.arrived i)
+
+theorem cinv_step (k : Nat) (hk : 0 < k) (c : C) (ev : CEv) (h : CInv k c) : CInv k (cstep k c ev) := by
+  obtain ⟨h1, h2⟩ := h
+  cases ev with
+  | deliver i =>
+    refine ⟨h1, ?_⟩
+    intro j
+    simp only [cstep]
+    have := h2 j
+    split <;> omega
+  | call i =>
+    simp only [cstep]
+    by_cases hp : c.served i < c.arrived i
+    · rw [if_pos hp]
+      have hs2 : ∀ j, (if j = i then c.served j + 1 else c.served j) ≤ c.arrived j := by
+        intro j
+        by_cases hj : j = i
+        · subst hj; simp; omega
+        · simp [hj]; exact h2 j
+      by_cases hall : (List.range k).all (fun j => decide (c.done < c.arrived j)) = true
+      · rw [if_pos hall]
+        refine ⟨?_, hs2⟩
+        intro n hn
+        simp only at hn ⊢
+        -- every source has served at least n - 1 before
+        have : n - 1 ≤ c.done := by
+          apply h1
+          intro j hj
+          have := hn j hj
+          split at this <;> omega
+        omega
+      · rw [if_neg hall]
+        refine ⟨?_, hs2⟩
+        intro n hn
+        simp only at hn ⊢
+        -- some source has not delivered the item of unit `done`
+        have : ∃ j, j < k ∧ c.arrived j ≤ c.done := by
+          apply Classical.byContradiction
+          intro hcon
+          apply hall
+          apply List.all_eq_true.mpr
+          intro j hj
+          have hj' := List.mem_range.mp hj
+          have : ¬ c.arrived j ≤ c.done := fun hle => hcon ⟨j, hj', hle⟩
+          simp; omega
+        obtain ⟨j, hj, hle⟩ := this
+        have hnj := hn j hj
+        by_cases hji : j = i
+        · subst hji
+          simp only [if_true] at hnj
+          omega
+        · simp only [hji, if_false] at hnj
+          have := h2 j
+          omega
+    · rw [if_neg hp]; exact ⟨h1, h2⟩
+
+theorem cinv_run (k : Nat) (hk : 0 < k) (evs : List CEv) : CInv k (crun k evs) := by
+  unfold crun
+  suffices H : ∀ c, CInv k c → CInv k (evs.foldl (cstep k) c) by
+    apply H
+    refine ⟨?_, fun _ => Nat.le_refl _⟩
+    intro n hn
+    have := hn 0 hk
+    simpa using this
+  induction evs with
+  | nil => intro c h; exact h
+  | cons ev evs ih => intro c h; exact ih _ (cinv_step k hk c ev h)
+
+/-- **No lost wake-up for the chained joining handler**: in every reachable state, if the next unit is complete (every external source
+has delivered its item), some call that followed a delivery has not run yet. -/
+theorem chain_no_lost_wakeup (k : Nat) (hk : 0 < k) (evs : List CEv) :
+    (∀ i, i < k → (crun k evs).done < (crun k evs).arrived i) → ∃ i, i < k ∧ (crun k evs).served i < (crun k evs).arrived i := by
+  intro hready
+  obtain ⟨h1, h2⟩ := cinv_run k hk evs
+  apply Classical.byContradiction
+  intro hcon
+  have hall : ∀ i, i < k → (crun k evs).done + 1 ≤ (crun k evs).served i := by
+    intro i hi
+    have hr := hready i hi
+    have hs : ¬ (crun k evs).served i < (crun k evs).arrived i := fun h => hcon ⟨i, hi, h⟩
+    have := h2 i
+    omega
+  have := h1 _ hall
+  omega
+
 end Rex.Trigger
